@@ -217,7 +217,7 @@ func contains(l []uint64, v uint64) bool {
 func freshLabel(i int) uint64 { return 1<<40 + uint64(i) }
 
 func drawCanon(t *rapid.T) uint64 {
-	if rapid.IntRange(0, 3).Draw(t, "canon-table") == 0 {
+	if rapid.IntRange(0, 3).Draw(t, "canon-table") == 3 {
 		return 0 // leave MakeBlock's (random) table order
 	}
 	return rapid.Uint64Range(1, 1<<62).Draw(t, "canon-seed")
@@ -356,7 +356,7 @@ func TestC10Merge(t *testing.T) {
 		nt := false
 		for i := 0; i < n; i++ {
 			op, cl := drawMerge(t, fmt.Sprintf("m%d", i), cur, &nFresh)
-			if i > 0 && rapid.IntRange(0, 2).Draw(t, "reuse-target") == 0 {
+			if i > 0 && rapid.IntRange(0, 2).Draw(t, "reuse-target") == 2 {
 				// merge into / out of the label produced by the earlier merge
 				if rapid.Bool().Draw(t, "earlier-target-as-merged") && op.Target != c.Ops[i-1].Target {
 					if !contains(op.Merged, c.Ops[i-1].Target) {
@@ -577,7 +577,7 @@ func drawReplace(t *rapid.T, name string, cur []uint64, prev *replaceStep, nFres
 	for i := 0; i < n; i++ {
 		f, fk := label(fmt.Sprintf("%s-p%d-from", name, i))
 		to, tk := label(fmt.Sprintf("%s-p%d-to", name, i))
-		if len(st.Map) > 0 && rapid.IntRange(0, 2).Draw(t, fmt.Sprintf("%s-p%d-chain", name, i)) == 0 {
+		if len(st.Map) > 0 && rapid.IntRange(0, 2).Draw(t, fmt.Sprintf("%s-p%d-chain", name, i)) == 2 {
 			f = st.Map[len(st.Map)-1].To // a->b, b->c inside one mapping
 			cls = append(cls, "op=replacemap/chain-a->b,b->c")
 		}
@@ -600,7 +600,7 @@ func drawReplace(t *rapid.T, name string, cur []uint64, prev *replaceStep, nFres
 			cls = append(cls, "op=replacemap/identity")
 		}
 	}
-	if len(st.Map) >= 2 && rapid.IntRange(0, 4).Draw(t, name+"-swap") == 0 {
+	if len(st.Map) >= 2 && rapid.IntRange(0, 4).Draw(t, name+"-swap") == 4 {
 		st.Map = []pair{{st.Map[0].From, st.Map[1].From}, {st.Map[1].From, st.Map[0].From}}
 		cls = append(cls, "op=replacemap/swap")
 	}
@@ -859,7 +859,7 @@ func checkSplit(c splitCase) error {
 }
 
 func genSplit(t *rapid.T) (splitCase, []string) {
-	g := blockgen.Shape(t, "shape", shapeOpts(4, rapid.IntRange(0, 3).Draw(t, "allow-big") == 0))
+	g := blockgen.Shape(t, "shape", shapeOpts(4, rapid.IntRange(0, 3).Draw(t, "allow-big") == 3))
 	c := splitCase{Block: blockgen.Spec(t, "block", g), Canon: drawCanon(t)}
 	d := c.Block.Dims()
 	arr := c.Block.Build()
@@ -873,7 +873,7 @@ func genSplit(t *rapid.T) (splitCase, []string) {
 	}
 	c.Runs = blockgen.DrawRuns(t, "runs", d, present)
 	cls = append(cls, "op=split/runs="+c.Runs.Kind)
-	if len(nz) > 0 && rapid.IntRange(0, 7).Draw(t, "target-absent") > 0 {
+	if len(nz) > 0 && rapid.IntRange(0, 7).Draw(t, "target-absent") < 7 {
 		c.Target = rapid.SampledFrom(nz).Draw(t, "target")
 		if c.Runs.Kind == "follow" && rapid.Bool().Draw(t, "target-follows") && c.Runs.Follow != 0 {
 			c.Target = c.Runs.Follow
@@ -883,7 +883,7 @@ func genSplit(t *rapid.T) (splitCase, []string) {
 		cls = append(cls, "op=split/target-absent")
 	}
 	c.NewLabel = freshLabel(2)
-	if len(nz) > 1 && rapid.IntRange(0, 7).Draw(t, "newlabel-present") == 0 {
+	if len(nz) > 1 && rapid.IntRange(0, 7).Draw(t, "newlabel-present") == 7 {
 		c.NewLabel = rapid.SampledFrom(nz).Draw(t, "newlabel")
 		if c.NewLabel == c.Target {
 			c.NewLabel = freshLabel(2)
@@ -892,7 +892,7 @@ func genSplit(t *rapid.T) (splitCase, []string) {
 		}
 	}
 	c.Remain = freshLabel(3)
-	c.NoEntry = rapid.IntRange(0, 5).Draw(t, "no-entry") == 0
+	c.NoEntry = rapid.IntRange(0, 5).Draw(t, "no-entry") == 5
 	if c.NoEntry {
 		cls = append(cls, "op=splitsv/no-rles-for-block")
 	}
@@ -912,7 +912,7 @@ func genSplit(t *rapid.T) (splitCase, []string) {
 			}
 		}
 	}
-	if rapid.IntRange(0, 4).Draw(t, "sv-absent") == 0 {
+	if rapid.IntRange(0, 4).Draw(t, "sv-absent") == 4 {
 		c.SVs = append(c.SVs, freshLabel(4))
 	}
 	if len(c.PreMapped) > 0 {
@@ -1121,8 +1121,9 @@ func checkDownres(c downresCase) error {
 
 	// --- DownresFast against DownresSlow ("Not completely working" per its comment: own signatures)
 	if c.G[0]%2 == 0 && c.G[1]%2 == 0 && c.G[2]%2 == 0 && nOct > 0 {
-		if stats.IsKnown(sigFastDisagree) || stats.IsKnown(sigFastPanic) || stats.IsKnown(sigFastError) {
-			stats.Excluded(sigFastDisagree)
+		// each failure kind has its own signature; a listed kind is tolerated (and counted), the others still checked
+		if stats.IsKnown(sigFastPanic) {
+			stats.Excluded(sigFastPanic)
 			return nil
 		}
 		recv, _, err := mkRecv()
@@ -1139,23 +1140,36 @@ func checkDownres(c downresCase) error {
 			})
 		})
 		if ferr != nil {
+			if stats.IsKnown(stats.SigOf(ferr)) {
+				stats.Excluded(stats.SigOf(ferr))
+				return nil
+			}
 			return ferr
 		}
 		var got []uint64
 		quietly(func() { got, ferr = decode("C10/DownresFast", recv, d) })
 		if ferr != nil {
+			if stats.IsKnown(sigFastDisagree) { // an undecodable result is a form of disagreement
+				stats.Excluded(sigFastDisagree)
+				return nil
+			}
 			return ferr
 		}
 		if model.FirstDiff(want, got) >= 0 {
+			if stats.IsKnown(sigFastDisagree) {
+				stats.Excluded(sigFastDisagree)
+				return nil
+			}
 			return stats.Violf(sigFastDisagree, "%s: %s", ctx, describeDiff(d, want, got))
 		}
+		stats.Count("downresfast_agreed_with_slow", 1)
 	}
 	return nil
 }
 
 func genDownres(t *rapid.T) (downresCase, []string) {
 	g := blockgen.Shape(t, "shape", shapeOpts(4, false))
-	if rapid.IntRange(0, 15).Draw(t, "big") == 0 {
+	if rapid.IntRange(0, 15).Draw(t, "big") == 15 {
 		g = [3]int{8, 8, 8}
 	}
 	c := downresCase{G: g, Canon: drawCanon(t)}
